@@ -72,9 +72,71 @@ def run_model(exe, cases, scratch, parts=6):
     return ok, total, decs, mism, "\n".join(out)
 
 
+def coq_z(t):
+    t = str(t)
+    return "(%s)" % t if t.startswith("-") else t
+
+
+def coq_layout_case(line, max_payloads=40):
+    """One harness line as a term of Acme.C02.CrossCheck.xcase (None = skip)."""
+    line = line.split(" # ")[0]
+    inp, obs = line.split(" ; ", 1)
+    if obs.startswith("panic"):
+        return None
+    t = inp.split()
+    i = 1
+    n = int(t[i]); i += 1
+    sigs = []
+    for _ in range(n):
+        sid, st, sz, be, k = t[i:i + 5]; i += 5
+        sigs.append("mkSig %s %s %s %s %s" % (coq_z(sid), coq_z(st), coq_z(sz), "true" if be == "1" else "false",
+                                              {"0": "KStandard", "1": "KEnum", "2": "KMux"}[k]))
+    assert t[i] == "P"; i += 1
+    npay = int(t[i]); i += 1
+    pays = [t[i + j][1:] for j in range(npay)]
+    o = obs.split()
+    j = 1
+    nf = int(o[j]); j += 1
+    fs = []
+    for _ in range(nf):
+        fs.append("mkF %s %s %s %s %s" % tuple(coq_z(x) for x in o[j:j + 5])); j += 5
+    assert o[j] == "D"; j += 1
+    runs = []
+    for pay in pays:
+        cnt = int(o[j]); j += 1
+        row = []
+        for _ in range(cnt):
+            row.append("(%s, %s)" % (coq_z(o[j]), coq_z(o[j + 1]))); j += 2
+        data = "; ".join(str(int(pay[2 * q:2 * q + 2], 16)) for q in range(len(pay) // 2))
+        if len(runs) < max_payloads:
+            runs.append("([%s], [%s])" % (data, "; ".join(row)))
+    return "mkX [%s] [%s] [%s]" % ("; ".join(sigs), "; ".join(fs), "; ".join(runs))
+
+
+def vm_cross_check(ctx, drv, cases_path, n_layouts=240, n_hist=150):
+    """DESIGN 3.3: sampled layouts (observed Filters()/Decode()) and sampled operation histories (state
+    observed after every operation) evaluated inside Coq with vm_compute."""
+    lines = [l.rstrip("\n") for l in open(cases_path)]
+    stepn = max(1, len(lines) // n_layouts)
+    terms = [c for c in (coq_layout_case(l) for l in lines[::stepn][:n_layouts]) if c]
+    rc, tout = vlib.sh([drv, "--trace-coq", str(n_hist), "4100", cases_path + ".trace"], timeout=1500)
+    hists = [l[len("COQ-HISTORY "):] for l in tout.split("\n") if l.startswith("COQ-HISTORY ")]
+    src = os.path.join(ctx.scratch, "C02Cross.v")
+    with open(src, "w") as f:
+        f.write("From Coq Require Import ZArith List.\nFrom Acme.C02 Require Import Model History CrossCheck.\n"
+                "Import ListNotations.\nLocal Open Scope Z_scope.\n"
+                "Definition cases : list xcase := [\n  " + ";\n  ".join(terms) + "].\n"
+                "Definition M := Eval vm_compute in length (mismatches cases).\nPrint M.\n"
+                "Definition hists : list (Z * list (list op * hobs)) := [\n  " + ";\n  ".join(hists) + "].\n"
+                "Definition HM := Eval vm_compute in hmismatches hists.\nPrint HM.\n")
+    rc, out = vlib.sh(["coqc", "-R", vlib.COQ, "Acme", "C02Cross.v"], cwd=ctx.scratch, timeout=1500)
+    ok = rc == 0 and re.search(r"M\s*=\s*0%nat", out) is not None and re.search(r"HM\s*=\s*\[\s*\]", out) is not None
+    return len(terms), len(hists), ok, out[-1500:]
+
+
 def run(ctx):
     ctx.level = "proof"
-    status = vlib.proof_status(PID, extra_targets=["C02/Extract.v"])
+    status = vlib.proof_status(PID, extra_targets=["C02/Extract.v", "C02/CrossCheck.v"])
     ctx.proof_gate(status)
     drv = vlib.build_ocaml_driver("c02_driver", os.path.join(vlib.COQ, "extracted"),
                                   os.path.join(ctx.prop_dir, "driver", "c02_driver.ml"),
@@ -147,7 +209,9 @@ def run(ctx):
                 "and every Decode() are compared with the model; evaluations = Decode calls.  Predicates on the implementation: "
                 "byte order propagated, signals and masks inside the payload, Decode does not panic, order, RawValue = payload "
                 "bits (big.Int), masks cover, masks disjoint.  Failures caused by a layout that stopped being well-formed are "
-                "classified by the first edit that broke it.  non-trivial = distinct layout view with more than one signal or "
+                "classified by the first edit that broke it.  Every operation of every history is also replayed on the state "
+                "machine of coq/C02/History.v (byte order of message and signals, geometry, order, Filters() after each op; "
+                "history_model_steps).  non-trivial = distinct layout view with more than one signal or "
                 "a signal crossing a byte boundary",
         "samples": summ["samples"][:8],
         "distribution": summ["hist"],
@@ -172,6 +236,14 @@ def run(ctx):
         "Decode on a payload shorter than the message panics (index out of range): outside the property's quantifier, not exercised",
     ]
     if ctx.tier == "thorough":
+        nx, nh, okx, xlog = vm_cross_check(ctx, drv, out)
+        ctx.coverage["vm_compute_cross_check"] = {"layouts": nx, "histories": nh, "ok": okx,
+                                                  "what": "sampled layouts (observed Filters()/Decode()) and sampled operation histories (state "
+                                                          "observed after every operation) evaluated by vm_compute inside Coq "
+                                                          "(Acme.C02.CrossCheck: mismatches = 0, hmismatches = [])"}
+        if not okx:
+            ctx.violation("c02-vm-cross-check", "the in-Coq evaluation of %d sampled layouts / %d histories disagrees with what was observed "
+                          "on the implementation (or did not run): %s" % (nx, nh, xlog[-700:]), {"log": xlog}, found_input=False)
         okc, chk = vlib.coqchk(PID)
         ctx.coverage["coqchk"] = "ok" if okc else "FAILED"
         ctx.coverage["coqchk_tail"] = chk[-1500:]
